@@ -25,13 +25,13 @@ worker() {
     if [ "$mode" = refactors ] || [ "$mode" = cross ]; then
       res=""
       for pid in $ids; do
-        v=$(${BIN:-/verif/bin/verifchk} check $pid --repo $wt --verif $sc 2>&1 | grep "^VIOLATION rule" | cut -c1-${W:-260})
+        v=$(${BIN:-/verif/bin/verifchk} check $pid --repo $wt --verif $sc 2>&1 | grep -a "^VIOLATION rule" | cut -c1-${W:-260})
         [ -n "$v" ] && res="$res\n[$pid]\n$v"
       done
       if [ -z "$res" ]; then echo "SILENT $name" > $out/$name.txt; else printf "ALARM $name$res\n" > $out/$name.txt; fi
     else
       pid=${name%%_*}
-      v=$(${BIN:-/verif/bin/verifchk} check $pid --repo $wt --verif $sc 2>&1 | grep "^VIOLATION rule" | sed 's/^VIOLATION rule=\([^ ]*\) .*/\1/' | sort -u | tr '\n' ' ')
+      v=$(${BIN:-/verif/bin/verifchk} check $pid --repo $wt --verif $sc 2>&1 | grep -a "^VIOLATION rule" | sed 's/^VIOLATION rule=\([^ ]*\) .*/\1/' | sort -u | tr '\n' ' ')
       if [ -n "$v" ]; then echo "DETECTED $name $v" > $out/$name.txt; else echo "MISSED $name" > $out/$name.txt; fi
     fi
   done
